@@ -434,10 +434,14 @@ func ruleChunkBound() *Rule {
 				return missing("CHUNK-BOUND", fname+" / InstallSnapshotRequest.Bytes / snapshotChunkSize")
 			}
 			kConst := "snapshotChunkSize below the gRPC default receive limit"
+			constPos := "?"
+			if o := p.RaftPkg.Types.Scope().Lookup("snapshotChunkSize"); o != nil {
+				constPos = p.Pos(o.Pos())
+			}
 			if chunk > 0 && chunk <= grpcDefaultRecvLimit-chunkHeadroom {
-				obs.ok(kConst, "raft.go", fmt.Sprintf("snapshotChunkSize = %d ≤ %d", chunk, grpcDefaultRecvLimit-chunkHeadroom))
+				obs.ok(kConst, constPos, fmt.Sprintf("snapshotChunkSize = %d ≤ %d", chunk, grpcDefaultRecvLimit-chunkHeadroom))
 			} else {
-				obs.fail(kConst, "raft.go", fmt.Sprintf("snapshotChunkSize = %d exceeds %d (4 MiB default receive limit minus 1 KiB headroom): every chunk would be rejected with ResourceExhausted", chunk, grpcDefaultRecvLimit-chunkHeadroom), nil)
+				obs.fail(kConst, constPos, fmt.Sprintf("snapshotChunkSize = %d exceeds %d (4 MiB default receive limit minus 1 KiB headroom): every chunk would be rejected with ResourceExhausted", chunk, grpcDefaultRecvLimit-chunkHeadroom), nil)
 			}
 			bounded := func(v ssa.Value) (int64, bool) {
 				k, ok := constIntOf(stripConvert(resolve(nil, v)))
